@@ -68,6 +68,12 @@ def oracle(run, want):
         for k, n in enumerate(end["tries"], 1):
             if n > 4:
                 res.append(("transmissions:%d" % n, "request %d was transmitted %d times" % (k, n)))
+    if "closedfails" in want:
+        xdone = next((i for i, x in enumerate(run) if x["ev"] == "arr" and x["g"] == "done" and x["p"] == [0, "X"]), None)
+        if xdone is not None:
+            for i, x in enumerate(run):
+                if x["ev"] == "hand" and x["k"] == "rx" and i > xdone:
+                    res.append(("closed:call-succeeded-after-close", "call %d received a response after Client.Close had returned" % x["c"]))
     if "recovers" in want or "closedfails" in want:
         # replay the log at the level of "which connection is current, is it dead, was the client closed"
         dead, user_closed, close_done, close_started = False, False, False, False
